@@ -365,6 +365,67 @@ fn f5_repaired_input_agrees(src: &str, defs: &Defs, plain_tokens: &[String]) -> 
     }
 }
 
+pub const SIG_CMT_IN_ACTUAL: &str = "line-comment-inside-actual-argument-swallows-rest-of-line";
+
+/// F13: a // comment inside an actual argument is copied into the expansion without the line end that
+/// terminated it, so (without strip_comments) whatever follows the usage on its line becomes part of
+/// that comment. Recognised by repairing the input: with every such comment turned into a block
+/// comment the two runs must agree.
+fn f13_repaired_agrees(src: &str, defs: &Defs) -> bool {
+    let Some(repaired) = f13_repair(src) else { return false };
+    let run = |strip: bool| match api::pp_str(&repaired, Path::new("top.sv"), defs, &[] as &[PathBuf], false, strip) {
+        Ok(Ok((pt, _))) => Some(sig_lexemes(pt.text())),
+        _ => None,
+    };
+    match (run(false), run(true)) {
+        (Some(a), Some(b)) => a == b || (a.concat() == b.concat() && f5_repaired_input_agrees(&repaired, defs, &a)),
+        _ => false,
+    }
+}
+
+fn f13_repair(src: &str) -> Option<String> {
+    let Ok(lx) = lexref::lex_opts(src, true) else { return None };
+    let mut repaired = String::new();
+    let mut depth = 0i32;
+    let mut armed = false; // a macro usage has just been seen
+    let mut found = false;
+    for l in &lx {
+        let w = &src[l.b..l.e];
+        match l.k {
+            lexref::K::Bt => {
+                armed = depth == 0;
+                repaired.push_str(w);
+            }
+            lexref::K::Punct if w == "(" && (armed || depth > 0) => {
+                depth += 1;
+                armed = false;
+                repaired.push_str(w);
+            }
+            lexref::K::Punct if w == ")" && depth > 0 => {
+                depth -= 1;
+                repaired.push_str(w);
+            }
+            lexref::K::LineCmt if depth > 0 => {
+                found = true;
+                repaired.push_str("/*");
+                repaired.push_str(&w[2..].replace("*/", "* /"));
+                repaired.push_str("*/");
+            }
+            lexref::K::Ws | lexref::K::BlockCmt | lexref::K::LineCmt => repaired.push_str(w),
+            _ => {
+                if depth == 0 {
+                    armed = false;
+                }
+                repaired.push_str(w);
+            }
+        }
+    }
+    if !found {
+        return None;
+    }
+    Some(repaired)
+}
+
 pub const SIG_STRIP_GLUE: &str = "strip-comments-removes-the-only-separator";
 pub const SIG_STRIP_LITERAL: &str = "strip-comments-keeps-comment-attached-to-string-or-escaped-identifier";
 
@@ -394,8 +455,8 @@ pub fn strip_oracle(acc: &mut Acc, p: &Prog, src: &str, defs: &Defs, plain: Resu
                     Some(SIG_STRIP_P1D.to_string())
                 } else if a.concat() == b.concat() && f5_repaired_input_agrees(src, defs, &a) {
                     Some(SIG_STRIP_GLUE.to_string())
-                } else if false {
-                    Some(SIG_STRIP_P1D.to_string())
+                } else if f13_repaired_agrees(src, defs) {
+                    Some(SIG_CMT_IN_ACTUAL.to_string())
                 } else {
                     None
                 };
